@@ -575,6 +575,12 @@ func (s *HASyncer) performFullSync() error {
 			)
 		}
 	}
+	// Drop sessions the snapshot no longer contains (deleted on the active while we were away).
+	for _, old := range s.store.GetAllSessions() {
+		if _, ok := s.receivedSessions[old.SessionID]; !ok {
+			_ = s.store.DeleteSession(old.SessionID)
+		}
+	}
 	s.receivedMu.Unlock()
 
 	s.mu.Lock()
